@@ -273,6 +273,16 @@ def run_case(ctx, desc):
                 return ctx.violation(f"{conn}.{syn}.syncurrent_view", f"step {t}: syncurrent (shape {sc.shape}) differs from the shifted currents", rdesc)
             if tuple(ss.shape) != tuple(full) or not np.array_equal(ss.astype(bool), np.broadcast_to(ss_exp, full).astype(bool)):
                 return ctx.violation(f"{conn}.{syn}.synspike_view", f"step {t}: synspike (shape {ss.shape}) differs from the shifted spikes", rdesc)
+            # the connection without a delay parameter is the zero-shift member of the family: selector of zeros in the same
+            # layout, views equal to the synapse's present values
+            ctx.count("undelayed_view_checks")
+            usel = U.selector
+            if usel is not None and (tuple(usel.shape) != tuple(D.selector.shape) or bool((usel != 0).any())):
+                return ctx.violation(f"{conn}.{syn}.undelayed_selector", f"selector of the undelayed connection: shape {tuple(usel.shape)} "
+                                     f"(delayed: {tuple(D.selector.shape)}), nonzero={bool((usel != 0).any())}", rdesc)
+            if not torch.equal(U.syncurrent, U.synapse.current) or not torch.equal(U.synspike, U.synapse.spike):
+                return ctx.violation(f"{conn}.{syn}.undelayed_views_ne_present", "syncurrent / synspike of an undelayed connection differ "
+                                     "from the synapse's present current / spikes", rdesc)
             if desc["mode"] == "zero":
                 ctx.count("zero_delay_steps")
                 if not np.allclose(_np(outD), _np(outU), rtol=rtol, atol=atol):
